@@ -166,9 +166,20 @@ class C18(Oracle):
         gr_again = g * a
         if gr_again.shape != gr.shape or any(gr_again[pp] is not gr[pp] for pp in gr.area.positions()):
             out.append(V('gridrot/second-rotation-of-same-grid-differs', f'{a} {c["grid"]}'))
-        for pp in g.area.positions():
-            # the object at p ends up at the rotated position (about the grid's own frame)
-            pass
+        # the other spelling of the same product (`orientation * grid`, the one the docstring writes): the
+        # same rotated Grid, object for object
+        from gym_gridverse.grid import Grid
+
+        try:
+            gl = a * g
+            if not isinstance(gl, Grid) or gl.shape != gr.shape or any(gl[pp] is not gr[pp] for pp in gr.area.positions()):
+                out.append(V('gridrot/orientation-times-grid-differs-from-grid-times-orientation', f'{a} {c["grid"]}: {type(gl).__name__}'))
+            else:
+                bl = (-a) * gl
+                if not isinstance(bl, Grid) or bl.shape != g.shape or any(bl[pp] is not g[pp] for pp in g.area.positions()):
+                    out.append(V('gridrot/inverse', f'{a} {c["grid"]} (orientation on the left)'))
+        except Exception as e:
+            out.append(V('gridrot/orientation-times-grid-raises', f'{a} {c["grid"]}: {type(e).__name__}: {e}'))
         back = gr * (-a)
         if back.shape != g.shape or any(back[pp] is not g[pp] for pp in g.area.positions()):
             out.append(V('gridrot/inverse', f'{a} {c["grid"]}'))
@@ -1774,6 +1785,9 @@ class C20(Oracle):
             c['mode'] = rng.choice(['make', 'direct', 'state'])
             # keep stepping after a terminal step (the adapter forwards every step) in half of the cases
             c['noreset'] = rng.random() < 0.5
+            if rng.random() < 0.5:
+                # resets in a row (episodes of length zero), right at the start and in mid-episode
+                c['extra_resets'] = {str(k_): rng.randint(1, 2) for k_ in ([0] if rng.random() < 0.6 else []) + rng.sample(range(len(c['actions']) + 1), min(2, len(c['actions'])))}
             if rng.random() < 0.4:
                 # the same description with another action list: index i must mean the i-th listed action
                 names = [a.name for a in ACTIONS]
@@ -1827,20 +1841,32 @@ class C20(Oracle):
         def same(d1, d2):
             return list(d1.keys()) == list(d2.keys()) and all(np.array_equal(d1[k], d2[k]) and d1[k].dtype == d2[k].dtype for k in d1)
 
-        o = w.reset()
-        if isinstance(o, tuple):
-            o = o[0]
-        shadow.reset()
-        exp_o = orep.convert(shadow.observation)
-        if state_mode:
-            if not same(o, srep.convert(shadow.state)) or not w.observation_space.contains(o):
-                out.append(V('gym/state-wrapper-reset', f'{fname}'))
-        elif not same(o, exp_o) or not genv.observation_space.contains(o):
-            out.append(V('gym/reset-observation', f'{fname} enc={c["enc"]}'))
+        def do_reset(tag=''):
+            # every reset (the first, one after a terminal step, one right after another reset: an episode
+            # of length zero) returns the observation of the fresh state
+            o = w.reset()
+            if isinstance(o, tuple):
+                o = o[0]
+            shadow.reset()
+            exp_o = orep.convert(shadow.observation)
+            if state_mode:
+                if not same(o, srep.convert(shadow.state)) or not w.observation_space.contains(o):
+                    out.append(V('gym/state-wrapper-reset', f'{fname}{tag}'))
+            elif not same(o, exp_o) or not genv.observation_space.contains(o):
+                out.append(V('gym/reset-observation', f'{fname} enc={c["enc"]}{tag}'))
+            if not same(genv.observation, exp_o):
+                out.append(V('gym/observation-after-reset', f'{fname} enc={c["enc"]}{tag}'))
+
+        do_reset()
+        extra = {int(k_): v_ for k_, v_ in (c.get('extra_resets') or {}).items()}
         nact = genv.action_space.n
         if nact != len(listed):
             out.append(V('gym/action-space-size', fname))
         for k, ai in enumerate(c['actions']):
+            for j in range(extra.get(k, 0)):
+                do_reset(f' (reset number {j + 1} in a row before step {k})')
+            if out:
+                break
             try:
                 res = w.step(ai)
             except Exception as e:
@@ -1865,8 +1891,7 @@ class C20(Oracle):
                 if info != {}:
                     out.append(V('gym/info-not-empty', fname))
             if d and not c.get('noreset'):
-                w.reset()
-                shadow.reset()
+                do_reset(f' (after the terminal step {k})')
         # switching representation updates the advertised space
         other = [e for e in ('default', 'no-overlap', 'compact') if e != c['enc']][c['seed'] % 2]
         genv.set_observation_representation(other)
@@ -2718,8 +2743,10 @@ class C17(Oracle):
             case = {'kind': 'build', 'file': f, 'seed': rng.randrange(2**31), 'actions': [rng.randrange(8) for _ in range(rng.randint(5, 60))]}
             if rng.random() < 0.4 and not f.endswith('coin_env.yaml'):
                 case['perm'] = rng.randrange(2**31)  # the same description with another action list / order
+            elif rng.random() < 0.5 and not f.endswith('coin_env.yaml'):
+                case['tweak'] = rng.randrange(2**31)  # the same description with other parameter values (0, 0.0, False, ... included)
             yield case
-            yield {'kind': 'corrupt', 'file': rng.choice(files[:21]), 'which': rng.choice(['unknown-name', 'missing-required', 'bad-shape', 'bad-color', 'bad-action', 'bad-layout']), 'pick': rng.randrange(10**6)}
+            yield {'kind': 'corrupt', 'file': rng.choice(files[:21]), 'which': rng.choice(['unknown-name', 'missing-required', 'bad-shape', 'bad-color', 'bad-action', 'bad-layout', 'bad-distance']), 'pick': rng.randrange(10**6)}
             yield {'kind': 'byname', 'seed': rng.randrange(2**31)}
 
     def check(self, c):
@@ -2750,15 +2777,47 @@ class C17(Oracle):
                 rr.shuffle(names)
                 data['action_space'] = names[: rr.randint(2, len(names))]
                 before = copy.deepcopy(data)
+            if 'tweak' in c:
+                # other values of the same type for the parameters of the named components: a value is a
+                # value, also when it is 0, 0.0 or False
+                rr = random.Random(c['tweak'])
+                nodes = list(data['reward_functions']) + [data['reset_function']]
+                done = []
+                for node in nodes:
+                    for k_, v_ in list(node.items()):
+                        if k_ == 'name' or rr.random() < 0.5:
+                            continue
+                        if isinstance(v_, bool):
+                            node[k_] = rr.choice([False, True])
+                        elif isinstance(v_, float):
+                            node[k_] = rr.choice([0.0, 0.0, -1.25, 2.5])
+                        elif isinstance(v_, int):
+                            node[k_] = rr.choice([0, 0, 1, v_])
+                        elif k_ == 'distance_function':
+                            node[k_] = rr.choice(['manhattan', 'euclidean'])
+                        else:
+                            continue
+                        done.append((node['name'], k_, node[k_]))
+                before = copy.deepcopy(data)
+                try:
+                    eh = envspec.hand_assemble(before)
+                    eh.set_seed(c['seed'])
+                    eh.reset()
+                except Exception:
+                    return out  # not a description the named components can honour
+                try:
+                    factory_env_from_data(copy.deepcopy(before))
+                except Exception as e:
+                    return [V('factory/valid-description-rejected', f'{base} with {done}: {type(e).__name__}: {e} (the components called by hand with these parameters build the environment)')]
             try:
                 e1 = factory_env_from_data(data)
                 if data != before:
                     out.append(V('factory/mutates-input-data', os.path.basename(c['file'])))
                 e2 = factory_env_from_data(data)
-                if 'perm' in c:
+                if 'perm' in c or 'tweak' in c:
                     e3 = factory_env_from_data(copy.deepcopy(before))
                     e4 = factory_env_from_data(copy.deepcopy(before))
-                    if [a.name for a in e1.action_space.actions] != before['action_space']:
+                    if 'perm' in c and [a.name for a in e1.action_space.actions] != before['action_space']:
                         out.append(V('factory/action-order-differs-from-description', f'{base}: described {before["action_space"]}, built {[a.name for a in e1.action_space.actions]}'))
                 else:
                     e3 = factory_env_from_yaml(c['file'])
@@ -2820,6 +2879,22 @@ class C17(Oracle):
                 data[tgt]['colors'] = rr.choice([['PURPLE'], [], ['RED', 'RED'], 'RED', [3]])
             elif w == 'bad-action':
                 data['action_space'] = rr.choice([['JUMP'], [], ['MOVE_LEFT', 'MOVE_LEFT'], 'MOVE_LEFT', [1]])
+            elif w == 'bad-distance':
+                from gym_gridverse.envs.yaml.factory import factory_distance_function
+
+                junk = rr.choice(['chebyshev', 'euclidian', 'Euclidean', 'MANHATTAN', '', 'manhattan ', 'l1'])
+                try:
+                    factory_distance_function(junk)
+                    out.append(V('factory/unknown-distance-function-accepted', f'factory_distance_function({junk!r})'))
+                except (SchemaError, ValueError):
+                    pass
+                except Exception as e:
+                    out.append(V('factory/bad-distance-wrong-error', f'factory_distance_function({junk!r}): {type(e).__name__}: {e}'))
+                nodes = [r for r in data['reward_functions'] if 'distance_function' in r]
+                if not nodes:
+                    data['reward_functions'].append({'name': 'getting_closer', 'distance_function': junk, 'object_type': 'Exit', 'reward_closer': 0.2, 'reward_further': -0.2})
+                else:
+                    rr.choice(nodes)['distance_function'] = junk
             try:
                 factory_env_from_data(data)
                 out.append(V(f'factory/{w}-accepted', f'{os.path.basename(c["file"])}: {data.get("reset_function")}'))
@@ -2869,6 +2944,28 @@ class C17(Oracle):
                         out.append(V('factory/reward-by-description-differs', f'{desc}: {got} instead of {exp}'))
                 except Exception as e:
                     out.append(V('factory/reward-by-description-raises', f'{desc}: {type(e).__name__}: {e}'))
+        # ... for every value of the parameters, 0 / 0.0 / False included (a value is not "left out")
+        from gym_gridverse.envs.yaml.factory import factory_terminating_function
+
+        for desc, ref in (
+            ({'name': 'living_reward', 'reward': 0.0}, lambda: rf.living_reward(s, a, s2, reward=0.0)),
+            ({'name': 'living_reward', 'reward': rr.choice([0.0, -0.5, 2.0])}, None),
+            ({'name': 'reach_exit', 'reward_on': 0.0, 'reward_off': rr.choice([0.0, 1.5])}, None),
+            ({'name': 'bump_into_wall', 'reward': 0.0}, None),
+            ({'name': 'bump_moving_obstacle', 'reward': 0.0}, None),
+            ({'name': 'actuate_door', 'reward_open': 0.0, 'reward_close': 0.0}, None),
+            ({'name': 'pickndrop', 'object_type': 'Key', 'reward_pick': 0.0, 'reward_drop': 0.0}, None),
+        ):
+            try:
+                kw_ = {k_: v_ for k_, v_ in desc.items() if k_ != 'name'}
+                if 'object_type' in kw_:
+                    kw_['object_type'] = Key
+                exp = rf.reward_function_registry[desc['name']](s, a, s2, **kw_)
+                got = factory_reward_function(dict(desc))(s, a, s2)
+                if got != exp:
+                    out.append(V('factory/reward-by-description-differs', f'{desc}: {got} instead of {exp}'))
+            except Exception as e:
+                out.append(V('factory/reward-by-description-raises', f'{desc}: {type(e).__name__}: {e}'))
         # falsy parameter values are values (0, 0.0, False), not "unspecified"
         import numpy as np
         from gym_gridverse.envs import reset_functions as rsf
@@ -2882,6 +2979,14 @@ class C17(Oracle):
                     out.append(V('factory/component-by-name-differs', f'dynamic_obstacles {kw}'))
             except Exception as e:
                 out.append(V('factory/component-by-name-differs', f'dynamic_obstacles {kw}: {type(e).__name__}: {e}'))
+            try:
+                from gym_gridverse.envs.yaml.factory import factory_reset_function
+
+                s3 = factory_reset_function({'name': 'dynamic_obstacles', 'shape': [6, 6], **kw})(rng=np.random.default_rng(c['seed']))
+                if enc_state(s3) != enc_state(s2_):
+                    out.append(V('factory/reset-by-description-differs', f'dynamic_obstacles {kw}'))
+            except Exception as e:
+                out.append(V('factory/reset-by-description-raises', f'dynamic_obstacles {kw}: {type(e).__name__}: {e}'))
         return out
 
 
